@@ -249,25 +249,61 @@ def _lock():
     return f
 
 
-def regenerate_consts():
-    """Re-extract constants/contracts from the working tree into coq/Gen/Consts.v.
-    Raises BrokenTie when a pattern no longer matches (fail-closed)."""
+def regenerate_consts(needed=None):
+    """Re-extract constants/contracts from the working tree into coq/Gen/Consts.v
+    and, for every module harness/extractors/<name>.py, into coq/Gen/<TARGET>.v
+    (`TARGET` = file stem, `render(repo) -> str` = the complete text of the file).
+    Fail-closed: raises BrokenTie when a pattern of the base extractor, or of an
+    extractor named in `needed` (None = all), no longer matches.  A failing
+    extractor that is not needed leaves its file untouched."""
+    import importlib
     from harness import extract_consts
-    text = extract_consts.render(REPO)
+    texts = {"Consts": extract_consts.render(REPO)}
+    exdir = VERIF / "harness" / "extractors"
+    for f in sorted(exdir.glob("*.py")):
+        if f.stem.startswith("_"):
+            continue
+        try:
+            mod = importlib.import_module(f"harness.extractors.{f.stem}")
+            texts[mod.TARGET] = mod.render(REPO)
+        except BaseException as e:   # fail-closed: anything unexpected is a broken tie
+            if needed is None or f.stem in needed:
+                if isinstance(e, BrokenTie):
+                    raise
+                raise BrokenTie(f"extractor {f.stem}: {type(e).__name__}: {e}")
     lk = _lock()
     try:
-        p = COQ / "Gen" / "Consts.v"
-        if not p.exists() or p.read_text() != text:
-            p.write_text(text)
+        for name, text in texts.items():
+            p = COQ / "Gen" / f"{name}.v"
+            if not p.exists() or p.read_text() != text:
+                p.write_text(text)
     finally:
         lk.close()
-    return text
+    return texts["Consts"]
+
+
+COQPROJECT_HEAD = """-R . Hy
+-arg -w -arg -notation-overridden,-deprecated-syntactic-definition,-deprecated-hint-without-locality,-ambiguous-paths,-inexact-float
+"""
+
+
+def regenerate_coqproject():
+    """_CoqProject lists every .v file under Base/ Gen/ Model/ Proofs/ Props/
+    (dependency order is computed by coqdep)."""
+    files = []
+    for d in ("Base", "Gen", "Model", "Proofs", "Props"):
+        files += sorted(str(p.relative_to(COQ)) for p in (COQ / d).glob("*.v"))
+    text = COQPROJECT_HEAD + "\n".join(files) + "\n"
+    p = COQ / "_CoqProject"
+    if not p.exists() or p.read_text() != text:
+        p.write_text(text)
 
 
 def coq_make(targets, timeout=1500):
     """Full .vo build of the given targets (relative to coq/). Returns (ok, log)."""
     lk = _lock()
     try:
+        regenerate_coqproject()
         if not (COQ / "Makefile").exists() or \
                 (COQ / "Makefile").stat().st_mtime < (COQ / "_CoqProject").stat().st_mtime:
             subprocess.run(["coq_makefile", "-f", "_CoqProject", "-o", "Makefile"],
@@ -379,10 +415,16 @@ def run_case_files(pid, header, case_type, ok_fun, case_terms, shard=400, timeou
 # known findings
 
 def load_known():
+    """known_findings.json plus known_findings.d/*.json (same format; one file per property)."""
+    out = []
     p = VERIF / "known_findings.json"
-    if not p.exists():
-        return []
-    return json.loads(p.read_text())["findings"]
+    if p.exists():
+        out += json.loads(p.read_text())["findings"]
+    d = VERIF / "known_findings.d"
+    if d.exists():
+        for f in sorted(d.glob("*.json")):
+            out += json.loads(f.read_text())["findings"]
+    return out
 
 
 # ----------------------------------------------------------------------------
@@ -491,12 +533,13 @@ STD_TRUST = [
 ]
 
 
-def prove(ctx, pid=None, extra_targets=()):
+def prove(ctx, pid=None, extra_targets=(), extractors=None):
     """Regenerate constants, build the property's theorems, record obligations.
-    Returns True when everything compiled."""
+    Returns True when everything compiled.  `extractors`: names of the modules
+    under harness/extractors/ this property depends on (default: [<pid lower>])."""
     pid = pid or ctx.pid
     try:
-        regenerate_consts()
+        regenerate_consts(needed=[pid.lower()] if extractors is None else list(extractors))
     except BrokenTie as e:
         ctx.obligation("Gen/Consts.v extraction", False)
         ctx.notes["broken_tie"] = str(e)
